@@ -107,7 +107,8 @@ def run_via_main(batch):
         with open(os.path.join(tmp, "outputs", "batch_1.txt"), "w", encoding="utf-8") as f:
             f.write(B.STALE_REPORT)
         with open(os.path.join(tmp, "inputs", "batch_1.py"), "w", encoding="utf-8") as f:
-            f.write(repr(batch))
+            # files with an odd number of games are written with calls of built-in functions and indented, the others as a plain repr
+            f.write(B.render(batch, "calls") if len(batch) % 2 else repr(batch))
         os.chdir(tmp)
         sys.argv = ["conditionalrewards.py", "-f", "inputs/batch_1.py", "-s"]
         st, val = budget.run_budgeted(CR.main, cpu_s=60.0, max_lines=100_000_000)
